@@ -49,6 +49,10 @@ def _named(res, rel, cls):
 def run_case(cs):
     rng = cs.rng
     tree = world.gen_tree(rng, max_files=rng.choice([1, 4, 9]), max_dirs=rng.choice([0, 2, 4]), min_files=0)
+    if rng.random() < 0.04:
+        par = rng.choice([""] + [k for k, v in tree.items() if v is None])
+        tree[(par + "/" if par else "") + "big-clip.mov"] = rng.randbytes((1 << 20) * rng.randint(1, 2) + rng.randint(1, 5000))
+        cs.count("trees_with_a_file_over_1MiB")
     d = cs.dir()
     root = os.path.join(d, world.root_name(rng))
     world.write_tree(root, tree)
@@ -141,8 +145,14 @@ def run_case(cs):
             if not cand:
                 continue
             f = rng.choice(cand)
+            bigc = [x for x in cand if os.path.basename(x) == "big-clip.mov"]
+            if bigc and rng.random() < 0.7:
+                f = bigc[0]
             data = ondisk[f]
             how = rng.choice(["flip", "append", "truncate", "replace"]) if data else "append"
+            if len(data) > (1 << 20) and rng.random() < 0.7:
+                how = rng.choice(["tail-flip", "append", "tail-cut"])
+                cs.count("altered_in_tail_of_big_file")
             twins = [g for g in rec_files if g != f and ondisk.get(g) is not None and ondisk[g] != data and g not in affected["removed"] and g not in affected["altered"] and not os.path.islink(os.path.join(root, g)) and not os.path.islink(os.path.join(root, f))]
             if twins and rng.random() < 0.12:
                 # the file is replaced by a second name (hard link) of another recorded file: its content is now that
@@ -155,7 +165,11 @@ def run_case(cs):
                 cs.count("altered_by_hard_link_to_other_file")
                 continue
             b = bytearray(data)
-            if how == "flip":
+            if how == "tail-flip":
+                b[-1 - rng.randrange(min(len(b), 900))] ^= 1 << rng.randrange(8)
+            elif how == "tail-cut":
+                b = b[: len(b) - rng.randint(1, 900)]
+            elif how == "flip":
                 b[rng.randrange(len(b))] ^= 1 << rng.randrange(8)
             elif how == "append":
                 b += rng.randbytes(rng.randint(1, 5))
